@@ -1,5 +1,8 @@
-(* Model/Ledger.v — executable model of block execution on a non-arbitrating
-   node (properties C01, C02, C04). Definitions only.
+(* Model/Ledger.v — executable model of block execution (properties C01, C02,
+   C04) on a non-arbitrating node (exec_block: every node that receives blocks
+   from the network) and on an arbitrating node (exec_block_arb: the block
+   publisher's configuration, where processTransactions sorts the transactions
+   and silently drops the invalid / conflicting ones). Definitions only.
 
    Mirrors, check by check and in the code's order,
      Visor.ExecuteSignedBlock -> executeSignedBlock (signature)
@@ -188,6 +191,119 @@ Definition process_txns (pool : list ux) (head : block) (ts : list txn) : chk :=
   txns_loop pool head [] ts ;;
   pairwise ts.
 
+(* ---- processTransactions, ARBITRATING mode ------------------------------------
+   1. coin.SortTransactions with Blockchain.TransactionFee at the head time:
+      a transaction whose fee cannot be computed is dropped; order = fee per KB
+      descending, then hash ascending;
+   2. no transactions left: the (empty) list is returned without error;
+   3. first loop: a transaction failing VerifyBlockTxnConstraints is skipped; a
+      transaction one of whose output ids was seen before in the block, or is in
+      the unspent pool, is skipped — but its OTHER outputs still enter the seen set;
+   4. second loop (after F19's repair): a transaction sharing an input with an
+      earlier transaction that was kept is skipped; two transactions with one
+      hash (the earlier one kept) are an error even here. *)
+
+(* fee.TransactionFee: UxArray.CoinHours (every CoinHours error is an error
+   here), Transaction.OutputHours (checked sum), in >= out *)
+Fixpoint hours_in_strict (head_time : Z) (acc : Z) (uxin : list ux) : res (option Z) :=
+  match uxin with
+  | [] => Val (Some acc)
+  | u :: r =>
+      bind (UxOut_CoinHours (u_time u) (u_coins u) (u_hours u) head_time) (fun '(h, e) =>
+      if is_err e then Val None
+      else bind (AddUint64 acc h) (fun '(c, e2) =>
+           if is_err e2 then Val None else hours_in_strict head_time c r))
+  end.
+Definition fee_of (pool : list ux) (head_time : Z) (t : txn) : res (option Z) :=
+  match get_array (t_ins t) pool with
+  | None => Val None
+  | Some uxin =>
+      bind (hours_in_strict head_time 0 uxin) (fun hin =>
+      match hin with
+      | None => Val None
+      | Some hi =>
+          bind (add_all 0 (map o_hours (t_outs t))) (fun hout =>
+          match hout with
+          | None => Val None
+          | Some ho => Val (if hi <? ho then None else Some (hi - ho))
+          end)
+      end)
+  end.
+(* feeKB = fee*1024 saturating at 2^64-1; priority = feeKB / size *)
+Definition fee_prio (fee size : Z) : res Z :=
+  bind (MultUint64 fee 1024) (fun '(k, e) =>
+  udiv (if is_err e then 18446744073709551615 else k) size).
+Fixpoint sortable (pool : list ux) (head_time : Z) (ts : list txn) : res (list (Z * txn)) :=
+  match ts with
+  | [] => Val []
+  | t :: r =>
+      bind (fee_of pool head_time t) (fun f =>
+      match f with
+      | None => sortable pool head_time r
+      | Some fee =>
+          bind (fee_prio fee (t_size t)) (fun k =>
+          bind (sortable pool head_time r) (fun r' => Val ((k, t) :: r')))
+      end)
+  end.
+Definition less (a b : Z * txn) : bool :=
+  if fst a =? fst b then t_hkey (snd a) <? t_hkey (snd b) else fst a >? fst b.
+(* sort.Sort is unstable, but `less` is total on distinct hashes and equal
+   entries are the same transaction: insertion sort is the representative *)
+Fixpoint insert_by (x : Z * txn) (l : list (Z * txn)) : list (Z * txn) :=
+  match l with
+  | [] => [x]
+  | y :: r => if less y x then y :: insert_by x r else x :: y :: r
+  end.
+Definition sort_txns (pool : list ux) (head_time : Z) (ts : list txn) : res (list txn) :=
+  bind (sortable pool head_time ts) (fun l => Val (map snd (fold_right insert_by [] l))).
+
+(* first loop: outputs of one transaction; (skip?, seen') *)
+Fixpoint outs_arb (pool : list ux) (seen : list Z) (outs : list txout) : bool * list Z :=
+  match outs with
+  | [] => (false, seen)
+  | o :: r =>
+      if memZ (o_id o) seen || memZ (o_id o) (ids pool)
+      then (true, snd (outs_arb pool seen r))
+      else outs_arb pool (o_id o :: seen) r
+  end.
+Fixpoint loop1_arb (pool : list ux) (head : block) (seen : list Z) (ts : list txn) : option (list txn) :=
+  match ts with
+  | [] => Some []
+  | t :: r =>
+      match block_txn_constraints pool head t with
+      | Boom => None
+      | Fail _ => loop1_arb pool head seen r          (* every failure is a hard-constraint error: skip *)
+      | Pass =>
+          let so := outs_arb pool seen (t_outs t) in
+          match loop1_arb pool head (snd so) r with
+          | None => None
+          | Some l => Some (if fst so then l else t :: l)
+          end
+      end
+  end.
+(* second loop: kept = earlier transactions that were not skipped *)
+Fixpoint arb2 (kept : list txn) (l : list txn) : err + list txn :=
+  match l with
+  | [] => inr []
+  | t :: r =>
+      if existsb (fun s => shares_input s t) kept then arb2 kept r
+      else if existsb (fun u => t_hash t =? t_hash u) r then inl EDupTxn
+      else match arb2 (t :: kept) r with
+           | inl e => inl e
+           | inr l' => inr (t :: l')
+           end
+  end.
+Inductive arb_result := ArbOk (l : list txn) | ArbErr (e : err) | ArbBoom.
+Definition process_txns_arb (pool : list ux) (head : block) (ts : list txn) : arb_result :=
+  match sort_txns pool (h_time (b_head head)) ts with
+  | Panic => ArbBoom
+  | Val sorted =>
+      match loop1_arb pool head [] sorted with
+      | None => ArbBoom
+      | Some l1 => match arb2 [] l1 with inl e => ArbErr e | inr l2 => ArbOk l2 end
+      end
+  end.
+
 (* ---- verifyBlockHeader *)
 Definition verify_header (head b : block) : chk :=
   guard (h_seq (b_head b) =? wrap 64 (h_seq (b_head head) + 1)) EBkSeq ;;
@@ -239,11 +355,59 @@ Definition exec_block (s : state) (b : block) : state * outcome :=
       end
   end.
 
+(* the block as an arbitrating node stores it: same header, filtered body *)
+Definition set_txns (b : block) (l : list txn) : block :=
+  mkBlock (b_head b) (b_hash b) (b_body_actual b) (b_sig_ok b) l.
+
+(* ---- Visor.ExecuteSignedBlock on an ARBITRATING node: the same checks in the
+   same order; processTransactions returns the kept transactions, and the block
+   stored and applied to the unspent set is the offered header with that body *)
+Definition exec_block_arb (s : state) (b : block) : state * outcome :=
+  match chain s with
+  | [] => (s, Rejected EOther)
+  | head :: _ =>
+      let pre :=
+        guard (b_sig_ok b) ESig ;;
+        guard (negb (eqb_option Z.eqb (option_map b_hash (genesis_of (chain s))) (Some (b_hash b)))) EGenesis ;;
+        verify_header head b in
+      match pre with
+      | Fail e => (s, Rejected e)
+      | Boom => (s, Crashed)
+      | Pass =>
+          match process_txns_arb (utxo s) head (b_txns b) with
+          | ArbBoom => (s, Crashed)
+          | ArbErr e => (s, Rejected e)
+          | ArbOk kept =>
+              let post :=
+                guard (h_uxhash (b_head b) =? xorsum s) EUxHash ;;
+                guard (negb (memZ (b_hash b) (map b_hash (chain s)))) EStore in
+              match post with
+              | Fail e => (s, Rejected e)
+              | Boom => (s, Crashed)
+              | Pass =>
+                  let nb := set_txns b kept in
+                  match get_array (all_ins kept) (utxo s) with
+                  | None => (s, Rejected EUnspentMissing)
+                  | Some spent =>
+                      if forallb (fun u => negb (memZ (u_id u) (ids (remove_ids (all_ins kept) (utxo s))))) (created nb)
+                      then (apply_block s nb spent, Accepted)
+                      else (s, Rejected EInsertTwice)
+                  end
+              end
+          end
+      end
+  end.
+
 Definition step (s : state) (o : op) : state * outcome :=
   match o with ExecBlock b => exec_block s b end.
 
 Definition run (s : state) (ops : list op) : state :=
   fold_left (fun st o => fst (step st o)) ops s.
+
+Definition step_arb (s : state) (o : op) : state * outcome :=
+  match o with ExecBlock b => exec_block_arb s b end.
+Definition run_arb (s : state) (ops : list op) : state :=
+  fold_left (fun st o => fst (step_arb st o)) ops s.
 
 (* the state after Visor.Init: the genesis block is executed on the empty
    database (no header / transaction checks apply to it); its single
